@@ -105,6 +105,7 @@ def sensitivity(argv):
     the quick tier of the targeted property reports a violation."""
     from .mutants import CATALOGUE
     only = [a for a in argv if not a.startswith("-")]
+    with_tests = "--with-tests" in argv
     budget = "12"
     for a in argv:
         if a.startswith("--budget="):
@@ -124,6 +125,17 @@ def sensitivity(argv):
                 rc = 2
                 continue
             open(path, "w", encoding="utf-8").write(src.replace(m["old"], m["new"]))
+            tests_note = ""
+            if with_tests:
+                shutil.copytree(os.path.join(core.AK_REPO, "tests"), os.path.join(tmp, "tests"))
+                envt = dict(os.environ)
+                envt.pop("AK_REPO", None)
+                rt = subprocess.run([sys.executable, "-c",
+                                     "import sys, os; sys.path.insert(0, os.getcwd()); import ak; "
+                                     "assert ak.__file__.startswith(os.getcwd()), ak.__file__; import pytest; "
+                                     "sys.exit(pytest.main(['-q', '-p', 'no:cacheprovider', '-x', 'tests']))"],
+                                    cwd=tmp, capture_output=True, text=True, env=envt, timeout=900)
+                tests_note = "tests:pass " if rt.returncode == 0 else "tests:FAIL(not a relevant mutant) "
             env = dict(os.environ)
             env["AK_REPO"] = tmp
             r = subprocess.run([os.path.join(core.VERIF_DIR, "vcheck"), m["prop"], "--budget-s", budget],
@@ -134,7 +146,7 @@ def sensitivity(argv):
                 if ln.strip().startswith("violated:"):
                     what = ln.strip()[:160]
                     break
-            rows.append((m["id"], m["prop"], ("caught " + what) if caught else f"MISSED rc={r.returncode} {r.stdout[-300:]}"))
+            rows.append((m["id"], m["prop"], tests_note + (("caught " + what) if caught else f"MISSED rc={r.returncode} {r.stdout[-300:]}")))
             if not caught:
                 rc = 1
         finally:
